@@ -26,7 +26,10 @@ Open Scope Z_scope.
 
 (* net.IP abstracted to what getConnKey looks at: len(IP) = 0, IsUnspecified
    (0.0.0.0 or ::), IsMulticast, anything else; the payload is the printed
-   identity (IP.String() is injective on each class). *)
+   identity (IP.String() is injective on each class).  The byte level -- net.IP as a slice of 0, 4 or 16
+   bytes, the two representations of an IPv4 address, what String() prints -- is Server/Addr.v;
+   AddrProofs.key_abs_faithful: the key below, on [Addr.abs_addr] of concrete addresses, is equal exactly
+   when getConnKey's strings are. *)
 Inductive ip := IPnone | IPunspec (six : bool) | IPmcast (g : Z) | IPhost (h : Z).
 
 (* net.UDPAddr; zone 0 stands for "" *)
@@ -71,7 +74,9 @@ Definition to_wildcard (l : addr) : addr := clear_ip l.
 (* Part 2: the server                                                  *)
 (* ------------------------------------------------------------------ *)
 
-(* multicastHandler: token -> receiver *)
+(* multicastHandler: token -> receiver.  The code keys the table by Token.Hash() of the token; the table as
+   the code has it and its agreement with this one (on every history whose tokens the key function tells
+   apart) are in Server/TokenKey.v / TokenKeyProofs.v. *)
 Definition mhtab := list (list Z * Z).
 Fixpoint mh_lookup (t : mhtab) (tok : list Z) : option Z :=
   match t with
